@@ -206,6 +206,14 @@ fn base_variants() -> Vec<(&'static str, &'static str, Need, Mk)> {
         let m = FeedExec::AppendMultiplePrice { key: "USD".into(), prices: vec![v(&format!("{}.p1", tag), 11 * w.d), v(&format!("{}.p2", tag), 12 * w.d)], timestamps: vec![1_571_797_000, 1_571_797_100] };
         Box::new(move |w, who| { let a = w.feed.clone(); w.exec(who, &a, &m, &[]) })
     })));
+    t.push(("pricefeed", "append_multiple_price.empty", Need::Owner, mk(|_w, _tag| {
+        let m = FeedExec::AppendMultiplePrice { key: "USD".into(), prices: vec![], timestamps: vec![] };
+        Box::new(move |w, who| { let a = w.feed.clone(); w.exec(who, &a, &m, &[]) })
+    })));
+    t.push(("pricefeed", "append_multiple_price.one", Need::Owner, mk(|w, tag| {
+        let m = FeedExec::AppendMultiplePrice { key: "USD".into(), prices: vec![v(&format!("{}.p1", tag), 11 * w.d)], timestamps: vec![1_571_797_000] };
+        Box::new(move |w, who| { let a = w.feed.clone(); w.exec(who, &a, &m, &[]) })
+    })));
     t.push(("pricefeed", "update_owner", Need::Owner, mk(|_w, _tag| {
         Box::new(move |w, who| { let a = w.feed.clone(); w.exec(who, &a, &FeedExec::UpdateOwner { owner: "stranger".into() }, &[]) })
     })));
